@@ -5,6 +5,7 @@ use std::collections::HashSet;
 use bc_components::{Digest, DigestProvider, Salt, SealedMessage, Signature, SymmetricKey, SSKRGroupSpec, SSKRShare, SSKRSpec, Verifier, ARID};
 use bc_envelope::prelude::*;
 use bc_envelope::Attachments;
+use bc_envelope::extension::expressions::{FunctionsStore, ParametersStore};
 
 use super::c06;
 use super::c09::{key_pool, Key};
@@ -85,7 +86,7 @@ pub fn catalogue() -> Vec<Op> {
         "format/tree_format_with_target" => |e, a| { let t = tset(a); (e.tree_format_with_target(false, &t), e.tree_format_with_target(true, &t)) },
         "format/diagnostic" => |e, a| { (e.diagnostic(), e.diagnostic_annotated()) },
         "format/hex" => |e, a| { (e.hex(), e.hex_opt(true, None), e.hex_opt(false, None)) },
-        "format/display_debug" => |e, a| { format!("{:?}", e).len() },
+        "format/display_debug" => |e, a| { (format!("{:?}", e).len(), format!("{}", e).len(), e.to_string().len()) },
         "format/summary" => |e, a| { let n = a.rng.below(40); bc_envelope::with_format_context!(|c: &FormatContext| e.summary(n, c)) },
         // ---- serialisation / parsing
         "parse/cbor_roundtrip" => |e, a| { (Envelope::try_from_cbor_data(env_bytes(e)).is_ok(), Envelope::try_from_cbor(e.tagged_cbor()).is_ok(), Envelope::try_from(e.untagged_cbor()).is_ok()) },
@@ -104,11 +105,46 @@ pub fn catalogue() -> Vec<Op> {
             }
         },
         "parse/ur" => |e, a| { let s = e.ur_string(); Envelope::from_ur_string(s).is_ok() },
-        "parse/expression" => |e, a| { (Expression::try_from(e.clone()).is_ok(), Expression::try_from((e.clone(), Some(&functions::ADD))).is_ok()) },
-        "parse/request" => |e, a| { (Request::try_from(e.clone()).is_ok(), Request::try_from((e.clone(), Some(&functions::ADD))).is_ok()) },
-        "parse/response" => |e, a| { Response::try_from(e.clone()).map(|r| (r.is_ok(), r.id(), r.result().is_ok(), r.error().is_ok(), r.summary())).is_ok() },
-        "parse/event" => |e, a| { (Event::<String>::try_from(e.clone()).is_ok(), Event::<Envelope>::try_from(e.clone()).map(|v| v.summary()).is_ok()) },
-        "parse/function_parameter" => |e, a| { (Function::try_from(e.clone()).is_ok(), e.try_leaf().and_then(Parameter::try_from).is_ok()) },
+        "parse/expression" => |e, a| { (Expression::try_from(e.clone()).map(|x| (x.to_string(), x.function().to_string(), x.objects_for_parameter(parameters::LHS).len(), x.extract_optional_object_for_parameter::<u64>(parameters::RHS).is_ok(), Envelope::from(x))).is_ok(), Expression::try_from((e.clone(), Some(&functions::ADD))).is_ok()) },
+        "parse/request" => |e, a| { (Request::try_from(e.clone()).map(|x| (x.to_string(), x.summary(), x.function().name(), x.object_for_parameter(parameters::LHS).is_ok(), x.extract_objects_for_parameter::<String>(parameters::BLANK).is_ok(), x.note().len(), x.date().is_some(), Envelope::from(x))).is_ok(), Request::try_from((e.clone(), Some(&functions::ADD))).is_ok()) },
+        "parse/response" => |e, a| { Response::try_from(e.clone()).map(|r| (r.is_ok(), r.is_err(), r.id(), r.result().is_ok(), r.error().is_ok(), r.extract_result::<u64>().is_ok(), r.extract_error::<String>().is_ok(), r.summary(), r.to_string(), Envelope::from(r))).is_ok() },
+        "parse/event" => |e, a| { (Event::<String>::try_from(e.clone()).map(|v| (v.to_string(), v.id(), v.content().len(), v.note().len(), v.date().is_some(), Envelope::from(v))).is_ok(), Event::<Envelope>::try_from(e.clone()).map(|v| v.summary()).is_ok()) },
+        "parse/function_parameter" => |e, a| { (Function::try_from(e.clone()).map(|f| (f.to_string(), f.name(), f.named_name())).is_ok(), e.try_leaf().and_then(Parameter::try_from).map(|p| (p.to_string(), p.name())).is_ok()) },
+        // value types and their registries (no envelope involved beyond the random numbers)
+        "types/value_types" => |e, a| {
+            let n = a.rng.below(3000) as u64;
+            let kvs = [KnownValue::new(n), KnownValue::from(n), KnownValue::from(n as i32), KnownValue::from(n as usize), KnownValue::new_with_static_name(n, "static"), KnownValue::new_with_name(n, "dynamic".to_string())];
+            let mut set = HashSet::new();
+            for k in &kvs {
+                set.insert(k.clone());
+                let _ = (k.to_string(), k.name(), k.assigned_name().map(|s| s.len()), k.value());
+            }
+            let mut store = KnownValuesStore::new([known_values::NOTE, known_values::IS_A]);
+            store.insert(kvs[5].clone());
+            let _ = (store.known_value_named("dynamic").is_some(), store.known_value_named("none").is_some(), KnownValuesStore::known_value_for_name("dynamic", Some(&store)), KnownValuesStore::known_value_for_name("x", None), KnownValuesStore::name_for_known_value(kvs[0].clone(), Some(&store)), KnownValuesStore::name_for_known_value(KnownValue::new(n + 1), None), store.name(kvs[0].clone()), store.assigned_name(&kvs[0]).is_some());
+            let fs = [Function::from(n), Function::from(&functions::ADD), Function::new_known(n, Some("named".to_string())), Function::new_named("f")];
+            let mut fset = HashSet::new();
+            let mut fstore = FunctionsStore::new([functions::ADD, functions::MUL]);
+            fstore.insert(fs[2].clone());
+            for f in &fs {
+                fset.insert(f.clone());
+                let _ = (f.to_string(), f.name(), FunctionsStore::name_for_function(f, Some(&fstore)), FunctionsStore::name_for_function(f, None), fstore.name(f), fstore.assigned_name(f).is_some());
+            }
+            let ps = [Parameter::from(n), Parameter::from(&parameters::LHS), Parameter::new_known(n, Some("named".to_string())), Parameter::new_named("p"), Parameter::new_with_static_name(n, "static")];
+            let mut pset = HashSet::new();
+            let mut pstore = ParametersStore::new([parameters::LHS, parameters::RHS]);
+            pstore.insert(ps[2].clone());
+            for p in &ps {
+                pset.insert(p.clone());
+                let _ = (p.to_string(), p.name(), ParametersStore::name_for_parameter(p, Some(&pstore)), ParametersStore::name_for_parameter(p, None), pstore.name(p), pstore.assigned_name(p).is_some());
+            }
+            bc_envelope::with_format_context!(|c: &FormatContext| {
+                use dcbor::TagsStoreTrait;
+                let t = dcbor::Tag::with_value(n);
+                (c.name_for_value(n), c.tag_for_value(n).is_some(), c.tag_for_name("envelope").is_some(), c.assigned_name_for_tag(&t), c.name_for_tag(&t), c.known_values().name(KnownValue::new(n)), e.format_opt(Some(&c.clone().set_flat(true))).len())
+            });
+            (set.len(), fset.len(), pset.len())
+        },
         "parse/attachments_container" => |e, a| { Attachments::try_from_envelope(e).map(|x| x.add_to_envelope(Envelope::new("h"))).is_ok() },
         // ---- transforms
         "transform/add_assertion" => |e, a| { let q = p(a); let o = a.other.clone(); (e.add_assertion(q.clone(), o.clone()), e.add_assertion_salted(q.clone(), o.clone(), true), e.add_optional_assertion(q.clone(), Some(o.clone())), e.add_optional_assertion(q.clone(), None::<Envelope>), e.add_assertion_if(true, q.clone(), o), e.add_nonempty_string_assertion(q, "s")) },
